@@ -94,7 +94,7 @@ func hx(b []byte) string { return vh.Hex(b) }
 // ---------------------------------------------------------------- R 2,3,4 function level (K + O)
 
 func partRC4(r *vh.Run) {
-	n := r.Pick(48, 1200)
+	n := r.Pick(32, 500)
 	for i := 0; i < n; i++ {
 		rev := 2 + r.Rand.Intn(3)
 		length := 40 + 8*r.Rand.Intn(12)
@@ -248,6 +248,7 @@ type pwCase struct {
 	raw      string
 	prepared []byte // SASLprep + truncation (what a conforming implementation hashes)
 	ok       bool   // SASLprep accepts
+	sasl     string // SASLprep output before truncation
 }
 
 func aesPasswords(r *vh.Run) []pwCase {
@@ -257,7 +258,7 @@ func aesPasswords(r *vh.Run) []pwCase {
 		if !sup {
 			panic("password outside the supported SASLprep repertoire: " + s)
 		}
-		out = append(out, pwCase{s, trunc127([]byte(p)), ok})
+		out = append(out, pwCase{s, trunc127([]byte(p)), ok, p})
 	}
 	for _, s := range textPW {
 		add(s)
@@ -314,7 +315,7 @@ func partAES(r *vh.Run) {
 	pws := aesPasswords(r)
 	for _, rev := range []int{5, 6} {
 		for i, upw := range pws {
-			opw := pws[(i*7+3)%len(pws)]
+			opw := pws[(i*5+3+rev)%len(pws)]
 			p := randP(r)
 			if r.Rand.Intn(3) != 0 {
 				p = int64(int32(p))
@@ -482,7 +483,7 @@ var algs = []alg{
 func conformingBytes(a alg, s string) (b []byte, ok bool, class string) {
 	if a.rev >= 5 {
 		p, ok, _ := saslprep(s)
-		pc := pwCase{s, trunc127([]byte(p)), ok}
+		pc := pwCase{s, trunc127([]byte(p)), ok, p}
 		return pc.prepared, ok, prepClass(pc)
 	}
 	// PDFDocEncoding: ASCII and U+00A1..U+00FF are encoded as the code point value
@@ -648,5 +649,6 @@ func main() {
 	defer r.Finish()
 	partRC4(r)
 	partAES(r)
+	partAESModel(r)
 	partE2E(r)
 }
